@@ -166,6 +166,42 @@ class Observer:
         return {"cols": cols, "empty": bool(df.empty)}
 
 
+def remembered(info):
+    """the remembered validated state of an info object, as far as it can be seen from outside.  Private attribute
+    names are not part of any property: the known spellings are tried (three `_last_*` attributes; one tuple /
+    NamedTuple attribute whose name starts with `_last` or `_checked`, None = nothing remembered); anything else is
+    "unobservable" (None) and the remembered state is then simply not compared with the model."""
+    d = getattr(info, "__dict__", {})
+    if "_last_dataframe_state" in d:
+        has = d["_last_dataframe_state"] is not None
+        return {"has": has, "strict": bool(d.get("_last_strict_types")) if has and "_last_strict_types" in d else None}
+    cands = [k for k in d if k.startswith("_last") or k.startswith("_checked")]
+    if len(cands) == 1:
+        v = d[cands[0]]
+        if v is None:
+            return {"has": False, "strict": None}
+        if isinstance(v, tuple) and len(v) >= 1:
+            strict = getattr(v, "strict_types", None)
+            if strict is None and len(v) >= 3 and isinstance(v[2], (bool,)):
+                strict = v[2]
+            return {"has": v[0] is not None, "strict": None if strict is None else bool(strict)}
+    return None
+
+
+def state_fields(info, out):
+    """the part of a step's expectation that describes the remembered state ({} when unobservable)"""
+    r = remembered(info)
+    if r is None:
+        out.count("remembered:unobservable")
+        return {}
+    f = {"last": r["has"]}
+    if not r["has"]:
+        f["ls"] = None
+    elif r["strict"] is not None:
+        f["ls"] = r["strict"]
+    return f
+
+
 def reg_snapshot(info):
     res = []
     for name, c in info.columns.items():
@@ -314,10 +350,9 @@ class Ctx:
                 "frame": frame if frame is not None else self.obs.frame(self.df)}
         step.update(args)
         self.steps.append(step)
-        has = info._last_dataframe_state is not None
-        self.expect.append({"res": res, "reg": reg_snapshot(info), "last": has,
-                            "ls": bool(info._last_strict_types) if has else None,
-                            "strict": bool(info.metadata.strict_types)})
+        e = {"res": res, "reg": reg_snapshot(info), "strict": bool(info.metadata.strict_types)}
+        e.update(state_fields(info, self.out))
+        self.expect.append(e)
 
 
 def exc_name(e):
@@ -1505,10 +1540,8 @@ def run_history(out, prop, seed, stream, index, depth, weights=None, plan=None, 
         if res["exc"] not in REFUSALS + ("Exception",):
             out.fail("Table construction crashed", case, res, "a table or a refusal", key=f"{prop}:ctor-crash:" + res["exc"])
         return {"op": "meta_hist", "init": init, "steps": []}, {"init": res, "steps": []}, case, ctx
-    has0 = ctx.info._last_dataframe_state is not None
-    init_expect = {"res": None, "reg": reg_snapshot(ctx.info), "last": has0,
-                   "ls": bool(ctx.info._last_strict_types) if has0 else None,
-                   "strict": bool(ctx.info.metadata.strict_types)}
+    init_expect = {"res": None, "reg": reg_snapshot(ctx.info), "strict": bool(ctx.info.metadata.strict_types)}
+    init_expect.update(state_fields(ctx.info, out))
     names = list(weights or {k: w for k, (f, w) in OPS.items()})
     wts = [(weights or {k: w for k, (f, w) in OPS.items()})[k] for k in names]
     try:
@@ -1612,19 +1645,31 @@ def scripts_of(alphabet, depth):
     return res
 
 
+def _same_step(exp, ans):
+    """a step agrees when every field the harness could observe agrees (the remembered-state fields `last` / `ls` are
+    only present in the expectation when the implementation's remembered state was observable)"""
+    if not (isinstance(exp, dict) and isinstance(ans, dict) and "reg" in exp):
+        return exp == ans
+    return all(ans.get(k, "<absent>") == v for k, v in exp.items())
+
+
 def compare(out, what, case, exp, ans):
     if isinstance(ans, dict) and "error" in ans:
         out.mismatch("driver error in " + what, case, exp, ans)
         return
-    if ans == exp:
+    if isinstance(exp, dict) and "steps" in exp and isinstance(ans, dict) and "steps" in ans:
+        if _same_step(exp["init"], ans["init"]) and len(exp["steps"]) == len(ans["steps"]) and \
+                all(_same_step(a, b) for a, b in zip(exp["steps"], ans["steps"])):
+            return
+    elif ans == exp:
         return
     # localise: first differing step
     if isinstance(exp, dict) and "steps" in exp and isinstance(ans, dict) and "steps" in ans:
-        if exp["init"] != ans["init"]:
+        if not _same_step(exp["init"], ans["init"]):
             out.mismatch(what + ": construction", case, exp["init"], ans["init"])
             return
         for n, (a, b) in enumerate(zip(exp["steps"], ans["steps"])):
-            if a != b:
+            if not _same_step(a, b):
                 out.mismatch(f"{what}: step {n}", dict(case, step=n), a, b)
                 return
         out.mismatch(what + ": step count", case, len(exp["steps"]), len(ans["steps"]))
